@@ -75,6 +75,18 @@ func (v *vstore) add(sig, msg string, rep replayCase, size int, key string) {
 	}
 }
 
+func (v *vstore) saturated(fails []fail, size int) bool {
+	v.mu.Lock()
+	defer v.mu.Unlock()
+	for _, f := range fails {
+		r := v.m[f.sig]
+		if r == nil || r.count < 50 || size < r.size {
+			return false
+		}
+	}
+	return true
+}
+
 func (v *vstore) addN(sig, msg string, rep replayCase, size int, key string, n int64) {
 	v.add(sig, msg, rep, size, key)
 	v.mu.Lock()
@@ -289,7 +301,14 @@ func main() {
 
 	record := func(kind string, fails []fail, rerun func() []fail, rep replayCase, size int, key string) {
 		want := sigSet(fails)
-		for i := 0; i < 5; i++ {
+		// every failing case is re-executed 5 times before it is recorded, except
+		// when all its signatures already have 50 confirmed cases and a smaller
+		// reported example (keeps a badly broken tree from exhausting the budget)
+		n := 5
+		if vs.saturated(fails, size) {
+			n = 0
+		}
+		for i := 0; i < n; i++ {
 			if got := sigSet(rerun()); got != want {
 				r.Extra("machinery_errors", []string{fmt.Sprintf("C13 %s case %s not reproducible: first %q then %q", kind, key, want, got)})
 				return
@@ -314,6 +333,20 @@ func main() {
 		items = append(items, fmt.Sprintf("F %d %d", i, nShares))
 	}
 	items = append(items, pureItems(b)...)
+	if only := os.Getenv("VERIF_C13_ONLY"); only != "" { // debugging aid: run the items with this prefix only
+		var sel []string
+		for _, it := range items {
+			if strings.HasPrefix(it, only) {
+				sel = append(sel, it)
+			}
+		}
+		items = sel
+		r.NotExhaustive("VERIF_C13_ONLY=" + only + ": only the work items with this prefix were run")
+	}
+	itemIndex := map[string]int{}
+	for i, it := range items {
+		itemIndex[it] = i
+	}
 	timing := os.Getenv("VERIF_C13_TIMING") != ""
 	if pf := os.Getenv("VERIF_C13_PROF"); pf != "" {
 		f, _ := os.Create(pf)
@@ -410,12 +443,12 @@ func main() {
 		}
 	})
 	if len(skippedItems) > 0 {
-		sort.Strings(skippedItems)
+		sort.Slice(skippedItems, func(i, j int) bool { return itemIndex[skippedItems[i]] < itemIndex[skippedItems[j]] })
 		show := skippedItems
-		if len(show) > 12 {
-			show = show[:12]
+		if len(show) > 6 {
+			show = show[:6]
 		}
-		r.NotExhaustive(fmt.Sprintf("internal time budget of %v used up: %d of %d work items were not run (%s ...). Item order is F (real directory), N, W, X, D, E, S (sigma strings below the longest length), T (sigma strings of exactly %d symbols, by first two symbols); everything before the first skipped item was covered completely", budget, len(skippedItems), len(items), strings.Join(show, "; "), b.SigmaLen))
+		r.NotExhaustive(fmt.Sprintf("internal time budget of %v used up: the last %d of %d work items were not run (from %q on: %s ...). Items run in the order F (real directory), N, W, X, D, E, S (sigma strings below the longest length), T (sigma strings of exactly %d symbols, one item per pair of first two symbols, index into bounds.sigma); every item before %q was covered completely", budget, len(skippedItems), len(items), show[0], strings.Join(show, "; "), b.SigmaLen, show[0]))
 	}
 
 	// hand the violations to evid, smallest case per signature, in a stable order
